@@ -11,11 +11,13 @@ package main
 import (
 	"bufio"
 	"crypto/tls"
+	"encoding/csv"
 	"errors"
 	"fmt"
 	"net"
 	"os"
 	"os/exec"
+	"path/filepath"
 	"regexp"
 	"strings"
 	"time"
@@ -23,6 +25,9 @@ import (
 	"verifharness/coqfmt"
 	"verifharness/rng"
 )
+
+// workDir: where config files are written (the check's work directory, never /tmp when set)
+var workDir string
 
 func freeAddr() string {
 	l, err := net.Listen("tcp", "127.0.0.1:0")
@@ -66,17 +71,69 @@ func serveUpstream(l net.Listener) {
 	}
 }
 
+// how a list reaches the binary: command-line flags, the environment, or a YAML config file
+var channels = []string{"flag", "env", "file"}
+
+type launch struct {
+	args []string // extra command-line arguments
+	env  []string // extra environment
+	yaml []string // lines of a config file (--config-file)
+}
+
+func csvLine(fields []string) string {
+	var sb strings.Builder
+	w := csv.NewWriter(&sb)
+	w.Write(fields)
+	w.Flush()
+	return strings.TrimRight(sb.String(), "\n")
+}
+
+// addList hands one list over through the given channel, every rule exactly as written
+func (l *launch) addList(channel, name string, texts []string) {
+	if len(texts) == 0 {
+		return
+	}
+	switch channel {
+	case "env": // FORWARDER_DENY_DOMAINS: one CSV record
+		l.env = append(l.env, "FORWARDER_"+strings.ToUpper(strings.ReplaceAll(name, "-", "_"))+"="+csvLine(texts))
+	case "file": // a YAML list, one element per rule, single-quoted
+		l.yaml = append(l.yaml, name+":")
+		for _, t := range texts {
+			l.yaml = append(l.yaml, "  - '"+strings.ReplaceAll(t, "'", "''")+"'")
+		}
+	default: // one flag per rule; the flag value is a CSV record with one field
+		for _, t := range texts {
+			l.args = append(l.args, "--"+name+"="+csvLine([]string{t}))
+		}
+	}
+}
+
+var launchSeq int
+
 // startForwarder starts the binary with base flags + extra and waits until it listens.  Ports are chosen anew on
 // every attempt (another process may grab a port between choosing and binding; the machine may be loaded).
 // Returns the proxy address and a stop function; refused = the process exited by itself on every attempt
 // (it does not accept the flags).
-func startForwarder(bin, upstream string, extra []string) (addr string, stop func(), refused bool, err error) {
+func startForwarder(bin, upstream string, l launch) (addr string, stop func(), refused bool, err error) {
 	exits := 0
+	extra := l.args
+	if len(l.yaml) > 0 {
+		launchSeq++
+		cf := filepath.Join(os.TempDir(), fmt.Sprintf("vf-c17-%d-%d.yaml", os.Getpid(), launchSeq))
+		if workDir != "" {
+			cf = filepath.Join(workDir, fmt.Sprintf("config_%03d.yaml", launchSeq))
+		}
+		if err := os.WriteFile(cf, []byte(strings.Join(l.yaml, "\n")+"\n"), 0o644); err != nil {
+			return "", nil, false, err
+		}
+		extra = append(append([]string{}, extra...), "--config-file", cf)
+	}
 	for attempt := 0; attempt < 3; attempt++ {
 		addr = freeAddr()
 		args := append([]string{"run", "--address", addr, "--api-address", freeAddr(), "--proxy", "http://" + upstream,
 			"--log-level", "error", "--proxy-localhost", "allow"}, extra...) // loopback targets are refused by default, independently of the lists
 		cmd := exec.Command(bin, args...)
+		cmd.Env = append(os.Environ(), l.env...)
 		cmd.Stdout, cmd.Stderr = os.Stderr, os.Stderr
 		if err := cmd.Start(); err != nil {
 			return "", nil, false, err
@@ -134,6 +191,7 @@ type target struct {
 type e2eCase struct {
 	Entries []entry  `json:"entries"`
 	Targets []target `json:"targets"`
+	Channel string   `json:"channel"` // flag | env | file
 }
 
 // status of one request through the proxy: 403 denied, 200 reached the upstream, 0 = no reply
@@ -158,7 +216,7 @@ func probe(proxyAddr string, t target) int {
 	return code
 }
 
-var e2eNames = []string{"foo.test", "FOO.test", "foo.test.", "bar.example.com", "www.example.com", "example.com", "xfoo.testx",
+var e2eNames = []string{"fo.test", "fooo.test", "barr", "xfoo", "foo.test", "FOO.test", "foo.test.", "bar.example.com", "www.example.com", "example.com", "xfoo.testx",
 	"foo", "a.internal", "A.INTERNAL", "bar", "10.1.2.3", "192.168.0.1"}
 var e2eV6 = []string{"2001:db8::1", "::1", "fe80::1", "2001:db8::10"}
 
@@ -206,6 +264,11 @@ func e2eRulePool() [][]Item {
 		{Item{K: "any"}, star(Item{K: "any"})}, cat([]Item{bol}, lit2("foo.test"), []Item{eol}), cat([]Item{bol, star(cls('0', '9'))}, lit2(".")),
 		cat([]Item{bol}, []Item{cls('a', 'z'), star(cls('a', 'z'))}, []Item{eol}), lit2("test"), cat([]Item{bol}, lit2("fe80:")),
 		cat(lit2(":8080"), []Item{eol}), cat(lit2(":443")),
+		// rules with ',' and '"': counted repetition, a class with a comma, a quoted literal
+		cat([]Item{bol}, lit2("f"), []Item{{K: "rep", Rep: "Count", Lo: 1, Hi: 2, X: ptr(lit('o'))}}, lit2(".test"), []Item{eol}),
+		cat(lit2("ba"), []Item{{K: "rep", Rep: "Count", Lo: 2, Hi: -1, X: ptr(lit('r'))}}),
+		cat([]Item{{K: "class", Ranges: [][2]int{{'a', 'c'}, {',', ','}, {'x', 'x'}}}}, lit2("foo")),
+		cat(lit2("foo"), []Item{{K: "bar"}}, lit2("\"x,y")), cat(lit2("example"), []Item{{K: "rep", Rep: "Count", Lo: 0, Hi: 1, X: ptr(lit('.'))}}, lit2("com")),
 	}
 }
 
@@ -237,6 +300,13 @@ func genE2ECase(r *rng.R, i int) e2eCase {
 		}
 	}
 	c.Targets = genTargets(r, 10)
+	c.Channel = channels[i%3]
+	if i == 3 || i == 4 { // rules with commas, once through the config file and once through the environment
+		pool := e2eRulePool()
+		c.Entries = []entry{{false, pool[20]}, {true, pool[21]}, {false, pool[22]}, {false, pool[23]}}
+		c.Targets = append(c.Targets, target{"foo.test", "foo.test", false}, target{"fooo.test", "fooo.test", false}, target{"barr", "barr", false})
+		c.Channel = map[int]string{3: "file", 4: "env"}[i]
+	}
 	return c
 }
 
@@ -249,7 +319,8 @@ func runE2ECase(bin string, c e2eCase) (string, map[string]int, error) {
 	}
 	defer l.Close()
 	go serveUpstream(l)
-	var args []string
+	var la launch
+	var texts []string
 	var alone []*regexp.Regexp
 	var ents []string
 	for _, e := range c.Entries {
@@ -262,15 +333,17 @@ func runE2ECase(bin string, c e2eCase) (string, map[string]int, error) {
 		if e.Exclude {
 			t = "-" + t
 		}
-		args = append(args, "--deny-domains="+t)
+		texts = append(texts, t)
 		ents = append(ents, fmt.Sprintf("(%s, %s)", coqfmt.Bool(e.Exclude), Coq(e.Rule)))
 	}
-	addr, stop, refused, err := startForwarder(bin, l.Addr().String(), args)
+	la.addList(c.Channel, "deny-domains", texts)
+	addr, stop, refused, err := startForwarder(bin, l.Addr().String(), la)
 	if err != nil {
 		return "", nil, err
 	}
-	if refused {
-		return "", nil, fmt.Errorf("forwarder refuses the flags %q", args)
+	if refused { // a list of valid rules that the binary does not accept
+		stats["not-started"]++
+		return fmt.Sprintf("{| uc_site := 0; uc_started := false; uc_entries := %s; uc_obs := [] |}", coqfmt.List("(bool * rx)", ents)), stats, nil
 	}
 	defer stop()
 	var obs []string
@@ -289,7 +362,7 @@ func runE2ECase(bin string, c e2eCase) (string, map[string]int, error) {
 		obs = append(obs, fmt.Sprintf("(%s, %s, %s)", coqfmt.Str(t.Bare),
 			aloneForms(alone, []string{t.Bare, strings.TrimSuffix(t.Bare, ".")}), coqfmt.Bool(code == 403)))
 	}
-	return fmt.Sprintf("{| uc_site := 0; uc_entries := %s; uc_obs := %s |}", coqfmt.List("(bool * rx)", ents),
+	return fmt.Sprintf("{| uc_site := 0; uc_started := true; uc_entries := %s; uc_obs := %s |}", coqfmt.List("(bool * rx)", ents),
 		coqfmt.List("(str * list (list bool) * bool)", obs)), stats, nil
 }
 
@@ -299,6 +372,7 @@ type routeCase struct {
 	Deny    []entry  `json:"deny"`
 	Direct  []entry  `json:"direct"`
 	Targets []target `json:"targets"` // authority WITHOUT port: the harness appends the origin's port
+	Channel string   `json:"channel"`
 }
 
 // origin: answers every request with "ORIGIN"
@@ -417,6 +491,7 @@ func genRouteCase(r *rng.R, i int) routeCase {
 		}
 		c.Deny, c.Direct = ensureInclude(c.Deny), ensureInclude(c.Direct)
 	}
+	c.Channel = channels[(i+1)%3]
 	return c
 }
 
@@ -435,8 +510,9 @@ func runRouteCase(bin string, c routeCase) (string, map[string]int, error) {
 	defer ol.Close()
 	go serveOrigin(ol)
 	_, oport, _ := net.SplitHostPort(ol.Addr().String())
-	var args []string
+	var la launch
 	side := func(flagName string, es []entry) ([]*regexp.Regexp, []string, error) {
+		var texts []string
 		var alone []*regexp.Regexp
 		var ents []string
 		for _, e := range es {
@@ -449,9 +525,10 @@ func runRouteCase(bin string, c routeCase) (string, map[string]int, error) {
 			if e.Exclude {
 				t = "-" + t
 			}
-			args = append(args, "--"+flagName+"="+t)
+			texts = append(texts, t)
 			ents = append(ents, fmt.Sprintf("(%s, %s)", coqfmt.Bool(e.Exclude), Coq(e.Rule)))
 		}
+		la.addList(c.Channel, flagName, texts)
 		return alone, ents, nil
 	}
 	aDeny, eDeny, err := side("deny-domains", c.Deny)
@@ -462,7 +539,7 @@ func runRouteCase(bin string, c routeCase) (string, map[string]int, error) {
 	if err != nil {
 		return "", nil, err
 	}
-	addr, stop, refused, err := startForwarder(bin, ul.Addr().String(), args)
+	addr, stop, refused, err := startForwarder(bin, ul.Addr().String(), la)
 	if err != nil {
 		return "", nil, err
 	}
@@ -551,6 +628,7 @@ func genMITMCase(r *rng.R, i int) e2eCase {
 		ts = append(ts, target{h + ":" + r.Pick([]string{"443", "8443"}), h, true})
 	}
 	c.Targets = ts
+	c.Channel = channels[(i+2)%3]
 	return c
 }
 
@@ -563,7 +641,8 @@ func runMITMCase(bin string, c e2eCase) (string, map[string]int, error) {
 	}
 	defer l.Close()
 	go serveUpstream(l)
-	args := []string{"--mitm"}
+	la := launch{args: []string{"--mitm"}}
+	var texts []string
 	var alone []*regexp.Regexp
 	var ents []string
 	for _, e := range c.Entries {
@@ -576,15 +655,17 @@ func runMITMCase(bin string, c e2eCase) (string, map[string]int, error) {
 		if e.Exclude {
 			t = "-" + t
 		}
-		args = append(args, "--mitm-domains="+t)
+		texts = append(texts, t)
 		ents = append(ents, fmt.Sprintf("(%s, %s)", coqfmt.Bool(e.Exclude), Coq(e.Rule)))
 	}
-	addr, stop, refused, err := startForwarder(bin, l.Addr().String(), args)
+	la.addList(c.Channel, "mitm-domains", texts)
+	addr, stop, refused, err := startForwarder(bin, l.Addr().String(), la)
 	if err != nil {
 		return "", nil, err
 	}
 	if refused {
-		return "", nil, fmt.Errorf("forwarder refuses the flags %q", args)
+		stats["not-started"]++
+		return fmt.Sprintf("{| uc_site := 2; uc_started := false; uc_entries := %s; uc_obs := [] |}", coqfmt.List("(bool * rx)", ents)), stats, nil
 	}
 	defer stop()
 	var obs []string
@@ -601,6 +682,6 @@ func runMITMCase(bin string, c e2eCase) (string, map[string]int, error) {
 		}
 		obs = append(obs, fmt.Sprintf("(%s, %s, %s)", coqfmt.Str(t.Bare), aloneForms(alone, []string{t.Bare}), coqfmt.Bool(code == 1)))
 	}
-	return fmt.Sprintf("{| uc_site := 2; uc_entries := %s; uc_obs := %s |}", coqfmt.List("(bool * rx)", ents),
+	return fmt.Sprintf("{| uc_site := 2; uc_started := true; uc_entries := %s; uc_obs := %s |}", coqfmt.List("(bool * rx)", ents),
 		coqfmt.List("(str * list (list bool) * bool)", obs)), stats, nil
 }
